@@ -67,12 +67,28 @@ def _org_mentions(o, hit):
     return False
 
 
+def _other_variant(st, k):
+    """key k = base@Variant… : True iff state st knows that `base` holds a different variant (so k is vacuous there)"""
+    i = k.find("@")
+    if i < 0:
+        return False
+    base = k[:i]
+    m = re.match(r"@(\w+)", k[i:])
+    cur = st.opt.get(base)
+    return cur is not None and m is not None and cur != m.group(1)
+
+
 def join(a, b):
     iv = {}
     for k, v in a.iv.items():
         w = b.iv.get(k)
         if w is not None:
             iv[k] = (min(v[0], w[0]), max(v[1], w[1]))
+        elif _other_variant(b, k):
+            iv[k] = v
+    for k, w in b.iv.items():
+        if k not in a.iv and _other_variant(a, k):
+            iv[k] = w
     opt = {k: v for k, v in a.opt.items() if b.opt.get(k) == v}
     org = {k: v for k, v in a.org.items() if b.org.get(k) == v}
     return State(iv, a.rel & b.rel, opt, org)
@@ -811,8 +827,95 @@ class Ranges:
         kind = panic_call_kind(cp) or panic_call_kind(cp0)
         status = None
         detail = ""
+
+        def copy_sub(q, src_sfx, dst_sfx):
+            """copy intervals below q+src_sfx to sub[dst_sfx…]"""
+            if q is None:
+                return
+            pre = q + src_sfx
+            for kk, vv in st.iv.items():
+                if kk == pre:
+                    sub[dst_sfx] = vv
+                elif kk.startswith(pre) and kk[len(pre):len(pre) + 1] in (".", "#", "@"):
+                    sub[dst_sfx + kk[len(pre):]] = vv
+
+        def closure_rets(i):
+            """return summary of the closure passed as argument i (or None)"""
+            if i >= len(t.args):
+                return None
+            e = self.x.operand(t.args[i])
+            for z in model.walk(e):
+                if z[0] == "closure" and z[1] in self.prog.funcs:
+                    return ret_summary(self.prog, z[1], self.field_inv)
+                if z[0] == "fnref" and z[1] in self.prog.funcs:
+                    return ret_summary(self.prog, z[1], self.field_inv)
+            return None
+
+        def put_summary(summ, dst_sfx):
+            if not summ:
+                return
+            for sfx, vv in summ.items():
+                key = dst_sfx + sfx
+                if key in sub:
+                    sub[key] = (min(sub[key][0], vv[0]), max(sub[key][1], vv[1]))
+                else:
+                    sub[key] = vv
+
         # ---- models ----
-        if re.search(r"(slice::.*|Vec|VecDeque|String|str|HashMap|HashSet|BTreeMap|BTreeSet)::len$", cp) or cp.endswith("core::slice::len") or (name == "len" and re.search(r"slice|vec|str|collections", cp)):
+        if re.search(r"ops::(try_trait::)?Try>?::branch$", cp0.replace(" ", "")) or cp0.endswith("::branch"):
+            q = argpath(0) if t.args and t.args[0].place is not None else None
+            if q is not None:
+                q = self.path(t.args[0].place)
+                copy_sub(q, "@Ok.0", "@Continue.0")
+                copy_sub(q, "@Some.0", "@Continue.0")
+                cur = st.opt.get(q)
+                if cur in ("Ok", "Some"):
+                    optv = "Continue"
+                elif cur in ("Err", "None"):
+                    optv = "Break"
+            val = None
+            kind = None
+        elif re.search(r"(Option|Result)::map_or_else$", cp):
+            a = closure_rets(1)
+            b = closure_rets(2)
+            if a is not None and b is not None:
+                keys = set(a) & set(b)
+                for k_ in keys:
+                    sub[k_] = (min(a[k_][0], b[k_][0]), max(a[k_][1], b[k_][1]))
+                for k_ in (set(a) ^ set(b)):
+                    # a sub-path present on one side only (e.g. @Ok.0 vs @Err.0) keeps its interval
+                    sub[k_] = (a.get(k_) or b.get(k_))
+                val = sub.pop("", None)
+        elif re.search(r"Option::(map|and_then)$", cp) and closure_rets(1) is not None:
+            summ = closure_rets(1)
+            q = self.path(t.args[0].place) if t.args[0].place is not None else None
+            cur = st.opt.get(q) if q else None
+            if name == "map":
+                put_summary(summ, "@Some.0")
+                if cur in ("Some", "None"):
+                    optv = cur
+            else:
+                put_summary(summ, "")
+                sub.pop("", None)
+                if cur == "None":
+                    optv = "None"
+        elif re.search(r"Result::(map|and_then)$", cp) and closure_rets(1) is not None:
+            summ = closure_rets(1)
+            q = self.path(t.args[0].place) if t.args[0].place is not None else None
+            cur = st.opt.get(q) if q else None
+            if name == "map":
+                put_summary(summ, "@Ok.0")
+                if cur in ("Ok", "Err"):
+                    optv = cur
+            else:
+                put_summary(summ, "")
+                sub.pop("", None)
+        elif c is not None and c.get("rkind") == "item" and c.get("rpath") in self.prog.funcs and not panic_call_kind(cp):
+            summ = ret_summary(self.prog, c["rpath"], self.field_inv)
+            if summ:
+                put_summary(summ, "")
+                val = sub.pop("", None)
+        elif re.search(r"(slice::.*|Vec|VecDeque|String|str|HashMap|HashSet|BTreeMap|BTreeSet)::len$", cp) or cp.endswith("core::slice::len") or (name == "len" and re.search(r"slice|vec|str|collections", cp)):
             val, q = lenof(0)
             if q:
                 org = ("alias", q)
@@ -1390,3 +1493,63 @@ def check_function_sites(ctx, rule, path, params=None, table=None, kinds=None):
 
 def _is_log(expn):
     return any(e.startswith("log::") or e in ("$crate::__log", "$crate::log", "format", "format_args", "$crate::__private_api::format_args") for e in expn)
+
+
+_ret_cache = {}
+_ret_busy = set()
+
+
+def ret_summary(prog, fpath, field_inv=None):
+    """{suffix: interval} for the return place of a local function / closure: join over its normal exits of every tracked
+    key rooted at _0 ('' is the scalar return value, '@Ok.0', '.0', '#len' … its parts).  Parameters are unconstrained."""
+    key = (fpath, tuple(sorted((field_inv or {}).items())))
+    if key in _ret_cache:
+        return _ret_cache[key]
+    if fpath in _ret_busy:
+        return {}
+    _ret_busy.add(fpath)
+    try:
+        f = prog.funcs[fpath]
+        r = Ranges(prog, f, field_invariants=field_inv)
+        r.run()
+        out = None
+        for (bb, st) in r.exit_states:
+            cur = {}
+            for k, v in st.iv.items():
+                if k == "_0" or (k.startswith("_0") and k[2:3] in (".", "#", "@")):
+                    cur[k[2:]] = v
+            ov = st.opt.get("_0")
+            cur["__variant"] = ov
+            if out is None:
+                out = cur
+            else:
+                nv = {}
+                for k in set(out) | set(cur):
+                    if k == "__variant":
+                        continue
+                    if k in out and k in cur:
+                        nv[k] = (min(out[k][0], cur[k][0]), max(out[k][1], cur[k][1]))
+                    else:
+                        have, other = (out, cur) if k in out else (cur, out)
+                        m = re.match(r"@(\w+)", k)
+                        ovar = other.get("__variant")
+                        if m and ovar is not None and (ovar != m.group(1) if not isinstance(ovar, set) else m.group(1) not in ovar):
+                            nv[k] = have[k]
+                va, vb = out.get("__variant"), cur.get("__variant")
+                sa = va if isinstance(va, set) else ({va} if va is not None else None)
+                sb = vb if isinstance(vb, set) else ({vb} if vb is not None else None)
+                nv["__variant"] = (sa | sb) if (sa is not None and sb is not None) else None
+                out = nv
+        # drop type-wide intervals: they carry no information
+        res = {}
+        for k, v in (out or {}).items():
+            if k == "__variant" or v[0] == -INF or v[1] == INF:
+                continue
+            res[k] = v
+        _ret_cache[key] = res
+        return res
+    except Exception:
+        _ret_cache[key] = {}
+        return {}
+    finally:
+        _ret_busy.discard(fpath)
